@@ -281,7 +281,8 @@ def matrix_case(spec: dict):
                 sample = {key: k[bi].clone(), "acs_mask": acs[bi].clone()}
                 outs.append(tr(sample)["sensitivity_map"])
             S = torch.stack(outs) if outs else torch.zeros(shape)
-            src = None
+            src = (EstimateSensitivityMapModule(**kw).estimate_acs_image({key: k.clone(), "acs_mask": acs.clone()})
+                   if typ == SensitivityMapType.RSS_ESTIMATE else torch.ones(shape))
         else:
             mod = EstimateSensitivityMapModule(**kw)
             sample = {key: k.clone(), "acs_mask": acs.clone()}
